@@ -76,7 +76,7 @@ def palette() -> Dict[str, List[Dict[str, Any]]]:
                 r["fiat_in_no_fee"] = n.next(4)
             rows["in"].append(r)
     for i, typ in enumerate(OUT_TYPES):
-        for pat in (("none", "all", "zero_fee") if typ == "SELL" else (("none", "all")[i % 2],)):
+        for pat in (("none", "all", "zero_fee", "zero_fiat_fee") if typ == "SELL" else (("none", "all")[i % 2],)):
             r = {
                 "timestamp": ts(), "asset": "B1", "exchange": ("X1", "X2", "X3")[i % 3], "holder": ("H1", "H2")[(i + 1) % 2], "transaction_type": typ,
                 "spot_price": n.next(4), "crypto_out_no_fee": "0" if typ == "FEE" else n.next(1), "crypto_fee": "0" if pat == "zero_fee" else "0." + n.next(1).split(".")[1],
@@ -89,6 +89,8 @@ def palette() -> Dict[str, List[Dict[str, Any]]]:
                 r["fiat_fee"] = n.next(1)
             elif pat == "all":
                 r["fiat_fee"] = n.next(1)
+            elif pat == "zero_fiat_fee":
+                r["fiat_fee"] = "0"  # the exchange reports a fee worth 0 although a crypto fee was charged: a supplied value, not an empty cell
             rows["out"].append(r)
     for i, (fee, spot) in enumerate(((True, True), (False, False), (False, True), (True, True))):
         sent = n.next(2)
